@@ -31,5 +31,15 @@ CLAIMS["C14"] = {
     "text": "Theorems: the integer spec floor is a multiple of the step, <= d < floor+|s| and the greatest such multiple; zero step gives zero; Duration::floor/ceil/round equal the spec (saturated, ceil from the returned floor, round ties up) for all canonical operands outside recorded defect class D1 (operands more than a century below zero), with a decided counterexample inside it. Epoch versions are definitional wrappers checked by correspondence.",
     "note": "Trusted: Lean kernel + standard axioms; transcription of floor/ceil/round/approx; harness/decide. Partial on D1 (total_nanoseconds, pinned by the suite).",
 }
+PROPS["C05"] = P(rule="epochs of the six uniform scales from the epoch lattice (around each scale's zero, 1900, leap seconds, century boundaries, +/-10 000 y, anything representable) x 36 ordered pairs; ops: conversion, round trip, commutation with +d, accessors, constructors, reference epochs")
+CLAIMS["C05"] = {
+    "text": "Theorems: for all 36 ordered pairs of {TAI,TT,GPST,QZSST,GST,BDT} and EVERY canonical duration for which no bound is hit, to_time_scale returns the canonical duration d + off(a) - off(b) (constant offset), is the identity for a = b, round-trips to the identical epoch and commutes with + duration; the offsets are pinned by decide to TT-TAI = 32.184 s and the calendar dates 1980-01-06/1999-08-22/2006-01-01 with 19/19/33 s, and all duplicated constants in the sources agree.",
+    "note": "Trusted: Lean kernel + standard axioms; transcription of to_time_scale's uniform arms (validated by correspondence); constants regenerated from /repo each run (hv dump-consts, regex for prime_epoch_offset); Spec.civilDays for the three dates (a closed formula, cross-checked against the successor-structure calendar in C08).",
+}
+PROPS["C06"] = P(n_quick=24000, rule="every second in +/-40 s of each of the 28 IERS entries (x4 sub-second offsets) in both directions and round trip, then random instants aimed at leap seconds, 1960-1972 (SOFA entries), far past/future; provider queries (built-in, shipped file, generated IERS-format files); monotonicity probes")
+CLAIMS["C06"] = {
+    "text": "Theorems: (table, decide +kernel over the whole tables) IERS-flagged built-in entries = entries loaded from data/leap-seconds.list = raw text of that file = NAIF DELTET/DELTA_AT (dates through the calendar), 28 entries 10..37 s increasing by one; SOFA entries cannot influence IERS-only lookups (any table, by induction); UTC->TAI adds exactly the step function of the IERS file for every canonical UTC duration, hence strictly increasing; UTC->TAI->UTC is the identity (proved for ANY table with increasing stamps and non-decreasing offsets, by induction, and for the Dur-level model of the shipped table); TAI->UTC strictly increasing on every instant with a UTC pre-image — PARTIAL inside inserted seconds (recorded finding D9b with a decided counterexample).",
+    "note": "Trusted: Lean kernel + standard axioms; transcription of leap_seconds_with and the two UTC arms (validated by correspondence incl. every second around every leap second); tables regenerated from /repo each run. f64 time stamps/offsets are integer-valued with exact products (checked at generation). from_path's line grammar is modelled in the driver only (generated files), not proved.",
+}
 ALL = ["C%02d" % i for i in range(1, 21)]
 NOT_CLAIMED = {p: "model and theorems not built yet in this round (planned, see DESIGN.md §9)" for p in ALL if p not in CLAIMS}
